@@ -48,7 +48,7 @@ var extraProps = map[string][]string{
 	"ENCINPUTS":            {"C14", "C04"},
 	"LINKNIL":              {"C06", "C07"},
 	"NILROOT":              {"C10", "C07"},
-	"PURITY":               {"C02"},
+	"PURITY":               {"C02", "C10"}, // a scan that writes tree-visible state (a path buffer kept on the Mast) is corrupted by a nested scan from its own callback
 	"TRIPLE":               {"C01"},
 	"THRESH":               {"C05"},
 	"FORMATS":              {"C14"},
@@ -57,6 +57,7 @@ var extraProps = map[string][]string{
 	// (C02: a kept Root never changes; C07: a published version is announced by name; C08: the name is the hash of what was written)
 	"ROOTFIELDS":  {"C04", "C02", "C07", "C08", "C15"},
 	"KEYOPAQUE":   {"C09", "C04"}, // keys ordered natively in one place and by the configured comparator elsewhere end up out of order in persisted nodes
+	"ROOTEXACT":   {"C01"},        // a legal stored node that is refused makes every operation on the reloaded tree fail
 	"ROOTSWAP":    {"C15"},        // a persisted tree whose root stays an in-memory node never compares equal by name: the diff against its own version reads nodes
 	"ROOTDIRTY":   {"C04"},        // a name or a stale child installed as root leaves a height its contents do not justify
 	"LINKNAMES":   {"C11"},        // a published node that still points at an in-memory child shares that child with every tree that loads it
